@@ -9,6 +9,8 @@ import (
 	"fmt"
 	"sort"
 	"strings"
+	"sync"
+	"time"
 
 	commonmodels "github.com/lindb/common/models"
 	"github.com/lindb/common/pkg/encoding"
@@ -482,8 +484,46 @@ func RunLeafPlan(w *World, q *QueryDef, leaf *LeafDef, receivers []string) ([]*p
 	if st.HasGroupBy() && grouped {
 		lctx.GroupingCtx.VerifSetGroupingTagValues(rev)
 	}
+	t0 := time.Now()
 	lctx.SendResponse(nil)
+	noteLeafWait(leaf.Name, time.Since(t0), leafTimeout, fmt.Sprintf("level 1, group by %v, %d shards of the leaf with data (grouped=%v)", q.GroupBy, len(leaf.Shards), grouped))
 	return collect(), recorded, plan, nil
+}
+
+// leafHang records a leaf whose answer took (nearly) its task context's whole deadline: on the
+// unchanged tree a leaf answers in microseconds whatever it holds, so a leaf that waits for its
+// deadline waits for something that never happens (a channel nobody closes, a task never forked).
+// Reported as oracle failure `leaf-blocks-until-deadline` (once per case); the case loop stops the
+// run after `max_hangs` such cases, so a tree on which every such leaf hangs ends in seconds.
+var leafHang struct {
+	sync.Mutex
+	n      int
+	desc   string
+	report func(string)
+}
+
+func noteLeafWait(name string, took, deadline time.Duration, what string) {
+	if took < deadline*3/4 {
+		return
+	}
+	leafHang.Lock()
+	defer leafHang.Unlock()
+	leafHang.n++
+	if leafHang.desc == "" {
+		leafHang.desc = fmt.Sprintf("leaf %s answered after %s (task deadline %s): %s", name, took.Round(10*time.Millisecond), deadline, what)
+		if leafHang.report != nil {
+			leafHang.report(leafHang.desc) // first of the case: reported at once, before the answer comparison
+		}
+	}
+}
+
+// takeLeafHang returns and clears the record.
+func takeLeafHang() (int, string) {
+	leafHang.Lock()
+	defer leafHang.Unlock()
+	n, d := leafHang.n, leafHang.desc
+	leafHang.n, leafHang.desc = 0, ""
+	return n, d
 }
 
 // recordIterator renders one grouped iterator as `t:` / `f:` / `p:` tokens.
